@@ -232,6 +232,52 @@ fn gen_c03(sink: &mut Sink, tier: &str, seed: u64) {
     }
 }
 
+/// C11: tokenise + re-encode generated item sequences (preferred and not), mutated and random bytes; encode + tokenise
+/// random token sequences.
+#[cfg(all(feature = "alloc", feature = "half"))]
+fn gen_c11(sink: &mut Sink, tier: &str, seed: u64) {
+    use crate::cbgen::*;
+    let mut rng = StdRng::seed_from_u64(seed ^ 0xc11);
+    let n = if tier == "thorough" { 40000 } else { 4000 };
+    for i in 0..n {
+        let o = Opts { max_depth: 6, max_nodes: if i % 10 == 0 { 150 } else { 20 }, nonminimal: i % 2 == 0, bad_utf8: i % 11 == 0, ..Opts::default() };
+        let mut b = gen_item(&mut rng, &o);
+        for _ in 0..rng.gen_range(0..3) { b.extend_from_slice(&gen_item(&mut rng, &o)) }       // a sequence of items
+        sink.distinct_inputs += 1;
+        sink.call("tok", "bytes", &json!({"buf": crate::abs::bytes(&b)}));
+        if i % 3 == 0 { let m = mutate(&mut rng, &b); sink.call("tok", "bytes", &json!({"buf": crate::abs::bytes(&m)})); }
+        if i % 5 == 0 { let cut = rng.gen_range(0..b.len()); sink.call("tok", "bytes", &json!({"buf": crate::abs::bytes(&b[..cut])})); }
+        if i % 7 == 0 { let r: Vec<u8> = (0..rng.gen_range(1..16)).map(|_| rng.gen()).collect(); sink.call("tok", "bytes", &json!({"buf": crate::abs::bytes(&r)})); }
+    }
+    // all half patterns as tokens (signalling NaNs are outside the identity; they are NaN in any case)
+    for h in (0..=0xffffu32).step_by(if tier == "thorough" { 1 } else { 17 }) {
+        let b = [0xf9, (h >> 8) as u8, h as u8];
+        sink.call("tok", "bytes", &json!({"buf": crate::abs::bytes(&b)}));
+    }
+    for s in 0..=255u32 { sink.call("tok", "toks", &json!({"toks": [{"m":"simple","i":s}]})); }
+    // random token sequences
+    let texts = ["", "a", "h\u{e9}llo", "\u{1f600}"];
+    for _ in 0..n {
+        let k = rng.gen_range(1..6);
+        let toks: Vec<Value> = (0..k).map(|_| match rng.gen_range(0..17) {
+            0 | 1 => { let (neg, mag) = (rng.gen::<bool>(), rand_arg(&mut rng)); json!({"m":"int","neg":neg,"mag":crate::abs::u64b(mag)}) }
+            2 => json!({"m":"bool","b":rng.gen::<bool>()}), 3 => json!({"m":"null"}), 4 => json!({"m":"undefined"}),
+            5 => { let i: u8 = loop { let x: u8 = rng.gen(); if !(24..32).contains(&x) { break x } }; json!({"m":"simple","i":i}) }
+            6 => { let h: u16 = loop { let x: u16 = rng.gen(); if !half::f16::from_bits(x).is_nan() { break x } };
+                   json!({"m":"f16","bits":crate::abs::bytes(&half::f16::from_bits(h).to_f32().to_bits().to_be_bytes())}) }
+            7 => { let x: u32 = loop { let x: u32 = rng.gen(); if !f32::from_bits(x).is_nan() { break x } }; json!({"m":"f32","bits":crate::abs::bytes(&x.to_be_bytes())}) }
+            8 => json!({"m":"f64","bits":crate::abs::bytes(&rng.gen::<u64>().to_be_bytes())}),
+            9 => { let l = rng.gen_range(0..30); let b: Vec<u8> = (0..l).map(|_| rng.gen()).collect(); json!({"m":"bytes","b":crate::abs::bytes(&b)}) }
+            10 => json!({"m":"str","b":crate::abs::bytes(texts[rng.gen_range(0..4)].as_bytes())}),
+            11 => json!({"m":"array","n":crate::abs::u64b(rand_arg(&mut rng))}), 12 => json!({"m":"map","n":crate::abs::u64b(rand_arg(&mut rng))}),
+            13 => json!({"m":"tag","n":crate::abs::u64b(rand_arg(&mut rng))}), 14 => json!({"m":"end"}),
+            15 => { let m = ["begin_bytes", "begin_str"][rng.gen_range(0..2)]; json!({"m": m}) } _ => { let m = ["begin_array", "begin_map"][rng.gen_range(0..2)]; json!({"m": m}) }
+        }).collect();
+        sink.distinct_inputs += 1;
+        sink.call("tok", "toks", &json!({"toks": toks}));
+    }
+}
+
 /// C12: encode -> decode of f32 / f64 bit patterns (exponent boundaries, subnormals, zeros, infinities, NaN payloads,
 /// f32-representable doubles, seeded random), widening reads, narrowing writes.
 #[cfg(all(feature = "alloc", feature = "half"))]
@@ -399,6 +445,8 @@ pub fn cmd_gen(args: &[String]) -> i32 {
     match fam.as_str() {
         "c05" => gen_c05(&mut sink, tier, seed),
         "c06" => gen_c06(&mut sink, tier, seed),
+        #[cfg(all(feature = "alloc", feature = "half"))]
+        "c11" => gen_c11(&mut sink, tier, seed),
         #[cfg(feature = "alloc")]
         "c03" => gen_c03(&mut sink, tier, seed),
         #[cfg(all(feature = "alloc", feature = "half"))]
